@@ -53,14 +53,14 @@ Notation GPF := (gpf_step st_px gl_dens lk_zero1 gpf_sample gpf_wupd).
 (* measure / predictedMeasure / innovation / getNoiseCovarianceMatrix: any subset failing *)
 Theorem C12_kf_identity (p : pattern) (mm : mmodel) (pred out : G) st :
   fails_any p sites4 = true ->
-  r_out (KF (inject p mm) pred out st) = pred /\ r_st (KF (inject p mm) pred out st) = st.
+  r_out (KF (inject p mm) pred out st) = pred /\ r_st (KF (inject p mm) pred out st) = mkKfSt None (kf_py st).
 Proof. exact (kf_identity _ _ _ _ _ _ _ kf_px kf_upd p mm pred out st). Qed.
 
 (* also when the sensor itself (no injected pattern) reports the failure *)
 Theorem C12_kf_identity_any_model (mm : mmodel) (pred out : G) st :
   (mm_measure mm = None \/ (forall x, mm_predicted mm x = None) \/
    (forall a b, mm_innovation mm a b = None) \/ fst (mm_noisecov mm) = false) ->
-  r_out (KF mm pred out st) = pred /\ r_st (KF mm pred out st) = st.
+  r_out (KF mm pred out st) = pred /\ r_st (KF mm pred out st) = mkKfSt None (kf_py st).
 Proof. exact (kf_identity_model _ _ _ _ _ _ _ kf_px kf_upd mm pred out st). Qed.
 
 (* calls made: exactly the prefix up to the first failing call *)
@@ -74,22 +74,30 @@ Theorem C12_no_fault_kf (y : Y) (h : X -> YP) (inn : YP -> Y -> NU) (R : RC) (pr
   mkRes (fst (kf_upd pred nu R out)) (mkKfSt (Some nu) (snd (kf_upd pred nu R out))) sites4.
 Proof. exact (kf_no_fault _ _ _ _ _ _ _ kf_px kf_upd y h inn R pred out st). Qed.
 
-(* getLikelihood after a failed correction: whatever it reported before *)
-Theorem C12_kf_likelihood_after_failure_is_previous (p : pattern) (mm : mmodel) (pred out : G) st :
+(* getLikelihood after ANY correction that could not use the measurement reports failure,
+   whatever preceded it (st arbitrary: in particular the members left by earlier successes) *)
+Theorem C12_kf_likelihood_after_failure_reports_failure (p : pattern) (mm : mmodel) (pred out : G) st :
   fails_any p sites4 = true ->
-  kf_get_lik kf_lik (r_st (KF (inject p mm) pred out st)) = kf_get_lik kf_lik st.
-Proof. exact (kf_lik_unchanged_by_failure _ _ _ _ _ _ _ _ kf_px kf_upd kf_lik p mm pred out st). Qed.
+  kf_get_lik kf_lik (r_st (KF (inject p mm) pred out st)) = None.
+Proof. exact (kf_lik_after_failure_reports_failure _ _ _ _ _ _ _ _ kf_px kf_upd kf_lik p mm pred out st). Qed.
 
-Theorem C12_kf_likelihood_fresh_reports_failure (p : pattern) (mm : mmodel) (pred out : G) py :
-  fails_any p sites4 = true ->
-  kf_get_lik kf_lik (r_st (KF (inject p mm) pred out (mkKfSt None py))) = None.
-Proof. exact (kf_lik_fresh_reports_failure _ _ _ _ _ _ _ _ kf_px kf_upd kf_lik p mm pred out py). Qed.
+Theorem C12_kf_likelihood_after_failure_reports_failure_any_model (mm : mmodel) (pred out : G) st :
+  (mm_measure mm = None \/ (forall x, mm_predicted mm x = None) \/
+   (forall a b, mm_innovation mm a b = None) \/ fst (mm_noisecov mm) = false) ->
+  kf_get_lik kf_lik (r_st (KF mm pred out st)) = None.
+Proof. exact (kf_lik_after_failure_reports_failure_model _ _ _ _ _ _ _ _ kf_px kf_upd kf_lik mm pred out st). Qed.
+
+Theorem C12_kf_likelihood_after_success (y : Y) (h : X -> YP) (inn : YP -> Y -> NU) (R : RC) (pred out : G) st :
+  let nu := inn (h (kf_px pred)) y in
+  kf_get_lik kf_lik (r_st (KF (inject no_fault (total_mm y h inn R)) pred out st)) =
+  Some (kf_lik nu (snd (kf_upd pred nu R out))).
+Proof. exact (kf_lik_after_success _ _ _ _ _ _ _ _ kf_px kf_upd kf_lik y h inn R pred out st). Qed.
 
 (* ================= unscented correction, both constructors ================= *)
 Theorem C12_ukf_identity (additive : bool) (p : pattern) (mm : mmodel) (pred out : G) st :
   fails_any p sites3 = true ->
   r_out (UKF additive (inject p mm) pred out st) = pred /\
-  u_innov (r_st (UKF additive (inject p mm) pred out st)) = u_innov st.
+  u_innov (r_st (UKF additive (inject p mm) pred out st)) = None.
 Proof. exact (ukf_identity _ _ _ _ _ _ _ _ sigma_of ut_moments pm_default pxy_empty pm_add_noise ukf_augment pm_mean ukf_upd additive p mm pred out st). Qed.
 
 (* the flag of getNoiseCovarianceMatrix is not consulted (the statement of C12 does not ask for it) *)
@@ -102,12 +110,10 @@ Theorem C12_ukf_generic_call_log (p : pattern) (y : Y) (h : X -> YP) (inn : YP -
   upto_first_failure (mask NoiseCov p) [Measure; NoiseCov; Predicted; Innovation].
 Proof. exact (ukf_generic_log _ _ _ _ _ _ _ _ sigma_of ut_moments pm_default pxy_empty pm_add_noise ukf_augment pm_mean ukf_upd p y h inn R pred out st). Qed.
 
-(* additive transform: getNoiseCovarianceMatrix is called although predictedMeasure has failed *)
+(* additive transform: the prefix up to the first failing call as well (no call after a failed predictedMeasure) *)
 Theorem C12_ukf_additive_call_log (p : pattern) (y : Y) (h : X -> YP) (inn : YP -> Y -> NU) (R : RC) (pred out : G) st :
   r_log (UKF true (inject p (total_mm y h inn R)) pred out st) =
-  if p Measure then [Measure]
-  else if p Predicted then [Measure; Predicted; NoiseCov]
-  else [Measure; Predicted; NoiseCov; Innovation].
+  upto_first_failure (mask NoiseCov p) [Measure; Predicted; NoiseCov; Innovation].
 Proof. exact (ukf_additive_log _ _ _ _ _ _ _ _ sigma_of ut_moments pm_default pxy_empty pm_add_noise ukf_augment pm_mean ukf_upd p y h inn R pred out st). Qed.
 
 Theorem C12_no_fault_ukf (additive : bool) (y : Y) (h : X -> YP) (inn : YP -> Y -> NU) (R : RC) (pred out : G) st :
@@ -120,24 +126,22 @@ Theorem C12_no_fault_ukf (additive : bool) (y : Y) (h : X -> YP) (inn : YP -> Y 
         (if additive then [Measure; Predicted; NoiseCov; Innovation] else [Measure; NoiseCov; Predicted; Innovation]).
 Proof. exact (ukf_no_fault _ _ _ _ _ _ _ _ sigma_of ut_moments pm_default pxy_empty pm_add_noise ukf_augment pm_mean ukf_upd additive y h inn R pred out st). Qed.
 
-(* members after a failed predictedMeasure: old innovations_ next to a default-constructed
-   (additive: post-processed default-constructed) predicted_meas_ *)
+(* members after a failed predictedMeasure: no innovations_, the default-constructed predicted_meas_ *)
 Theorem C12_ukf_members_after_failed_prediction (additive : bool) (p : pattern) (y : Y) (h : X -> YP) (inn : YP -> Y -> NU) (R : RC) (pred out : G) st :
   p Measure = false -> p Predicted = true ->
-  r_st (UKF additive (inject p (total_mm y h inn R)) pred out st) =
-  mkUkfSt (u_innov st) (if additive then pm_add_noise pm_default R else pm_default).
+  r_st (UKF additive (inject p (total_mm y h inn R)) pred out st) = mkUkfSt None pm_default.
 Proof. exact (ukf_state_after_failure _ _ _ _ _ _ _ _ sigma_of ut_moments pm_default pxy_empty pm_add_noise ukf_augment pm_mean ukf_upd additive p y h inn R pred out st). Qed.
 
-Theorem C12_ukf_likelihood_fresh_reports_failure (additive : bool) (p : pattern) (mm : mmodel) (pred out : G) pm :
+Theorem C12_ukf_likelihood_after_failure_reports_failure (additive : bool) (p : pattern) (mm : mmodel) (pred out : G) st :
   fails_any p sites3 = true ->
-  ukf_get_lik ukf_lik (r_st (UKF additive (inject p mm) pred out (mkUkfSt None pm))) = None.
-Proof. exact (ukf_lik_fresh_reports_failure _ _ _ _ _ _ _ _ _ sigma_of ut_moments pm_default pxy_empty pm_add_noise ukf_augment pm_mean ukf_upd ukf_lik additive p mm pred out pm). Qed.
+  ukf_get_lik ukf_lik (r_st (UKF additive (inject p mm) pred out st)) = None.
+Proof. exact (ukf_lik_after_failure_reports_failure _ _ _ _ _ _ _ _ _ sigma_of ut_moments pm_default pxy_empty pm_add_noise ukf_augment pm_mean ukf_upd ukf_lik additive p mm pred out st). Qed.
 
 (* ================= serial unscented correction ================= *)
 Theorem C12_sukf_identity (sub_ok : bool) ncalls (p : pattern) (mm : mmodel) (pred out : G) st :
   fails_any p sites3 = true \/ sub_ok = false ->
   r_out (SUKF sub_ok ncalls (inject p mm) pred out st) = pred /\
-  s_innov (r_st (SUKF sub_ok ncalls (inject p mm) pred out st)) = s_innov st.
+  s_innov (r_st (SUKF sub_ok ncalls (inject p mm) pred out st)) = None.
 Proof. exact (sukf_identity _ _ _ _ _ _ sigma_of sukf_pred_mean sukf_upd sub_ok ncalls p mm pred out st). Qed.
 
 Theorem C12_sukf_noisecov_flag_ignored sub_ok ncalls (p : pattern) (mm : mmodel) (pred out : G) st :
@@ -163,13 +167,14 @@ Proof. exact (sukf_no_fault _ _ _ _ _ _ sigma_of sukf_pred_mean sukf_upd ncalls 
 
 Theorem C12_sukf_members_after_failed_innovation ncalls (p : pattern) (y : Y) (h : X -> YP) (inn : YP -> Y -> NU) (R : RC) (pred out : G) st :
   p Measure = false -> p Predicted = false -> p Innovation = true ->
-  r_st (SUKF true ncalls (inject p (total_mm y h inn R)) pred out st) = mkSukfSt (s_innov st) (Some (h (sigma_of pred))).
+  r_st (SUKF true ncalls (inject p (total_mm y h inn R)) pred out st) = mkSukfSt None (Some (h (sigma_of pred))).
 Proof. exact (sukf_state_after_innovation_failure _ _ _ _ _ _ sigma_of sukf_pred_mean sukf_upd ncalls p y h inn R pred out st). Qed.
 
-Theorem C12_sukf_likelihood_fresh_reports_failure sub_ok ncalls lcalls (p : pattern) (mm mm' : mmodel) (pred out : G) sp :
+(* no value and no call into the measurement model *)
+Theorem C12_sukf_likelihood_after_failure_reports_failure sub_ok ncalls lcalls (p : pattern) (mm mm' : mmodel) (pred out : G) st :
   fails_any p sites3 = true \/ sub_ok = false ->
-  fst (sukf_get_lik sukf_lik lcalls mm' (r_st (SUKF sub_ok ncalls (inject p mm) pred out (mkSukfSt None sp)))) = None.
-Proof. exact (sukf_lik_fresh_reports_failure _ _ _ _ _ _ _ sigma_of sukf_pred_mean sukf_upd sukf_lik sub_ok ncalls lcalls p mm mm' pred out sp). Qed.
+  sukf_get_lik sukf_lik lcalls mm' (r_st (SUKF sub_ok ncalls (inject p mm) pred out st)) = (None, []).
+Proof. exact (sukf_lik_after_failure_reports_failure _ _ _ _ _ _ _ sigma_of sukf_pred_mean sukf_upd sukf_lik sub_ok ncalls lcalls p mm mm' pred out st). Qed.
 
 (* ================= Gaussian likelihood ================= *)
 Theorem C12_likelihood_reports_failure (p : pattern) (mm : mmodel) (s : St) :
@@ -272,6 +277,11 @@ Theorem C12_no_fault_sis (mm : mmodel) step (pc : pset G St * pset G St) :
 Proof. exact (sis_no_fault _ _ _ _ _ _ _ sis_predict sis_correct sis_normalise mm step pc). Qed.
 End C12.
 
+(* GaussianCorrection::correct / PFCorrection::correct: the public entry points run the step (skip_ = false) *)
+Theorem C12_public_correct_runs_the_step (B S : Type) (step : B -> B -> S -> result B S) pred out st :
+  correct_wrapper false step pred out st = step pred out st.
+Proof. exact (correct_wrapper_not_skipping step pred out st). Qed.
+
 (* ================= the fault model and the algebraic model are one definition ================= *)
 (* the KF skeleton, instantiated with C01's numerical routines over ANY MatOps instance, under no_fault,
    is C01's kf_correct (components, innovations, measurement covariances); the weights / shape part W of
@@ -294,31 +304,8 @@ Theorem C12_kf_numerical_instance_identity (O : MatOps) (n m : nat) (W : Type) (
   fails_any p sites4 = true -> r_out (c_kf_step H (inject p (lin_mm H R y)) pred out st) = pred.
 Proof. exact (kf_skeleton_fault_is_identity O n m W H R y p pred out st). Qed.
 
-(* ================= refuted on the faithful model (witnesses on the extracted instance) ================= *)
-(* "after a correction that could not use the measurement getLikelihood reports failure" is FALSE for the
-   Gaussian corrections once an earlier correction succeeded: *)
-Theorem C12_kf_stale_likelihood_refuted :
-  exists o0 o1, run_kf [good6; bad Measure] = [o0; o1] /\
-    fails_any (pat_of (bad Measure)) sites4 = true /\
-    o_g o1 = leaf (IPredG 1) /\ fst (o_lik o1) = true /\ o_lik o1 = o_lik o0.
-Proof. exact kf_stale_witness. Qed.
-
-Theorem C12_ukf_stale_likelihood_refuted :
-  exists o0 o1 nu0, run_ukf false [good6; bad Predicted] = [o0; o1] /\
-    fails_any (pat_of (bad Predicted)) sites3 = true /\
-    o_g o1 = leaf (IPredG 1) /\
-    o_lik o1 = (true, ap2 FUkfLik nu0 (leaf FPmDefault)) /\
-    (exists pm0, snd (o_lik o0) = ap2 FUkfLik nu0 pm0).
-Proof. exact ukf_stale_witness. Qed.
-
-Theorem C12_sukf_stale_likelihood_refuted ncalls lcalls :
-  exists o0 o1 nu0, run_sukf true ncalls lcalls [good6; bad Innovation] = [o0; o1] /\
-    fails_any (pat_of (bad Innovation)) sites3 = true /\
-    o_g o1 = leaf (IPredG 1) /\
-    o_lik o1 = (true, Node FSukfLik [nu0; ap1 FH (ap1 FSigma (leaf (IPredG 1))); leaf IR]) /\
-    (exists yp0, snd (o_lik o0) = Node FSukfLik [nu0; yp0; leaf IR]).
-Proof. exact (sukf_stale_witness ncalls lcalls). Qed.
-
+(* ================= refuted on the faithful model (witnesses on the extracted instance) =================
+   (the stale-likelihood refutations of the code before 201e1b4 live in C12_Regress.v) *)
 (* "every pattern with a failing call among those GPFCorrection (through the wrapped correction) consults
    is an identity" is FALSE when the likelihood model reports a value: *)
 Theorem C12_gpf_inner_failure_refuted :
@@ -328,6 +315,14 @@ Theorem C12_gpf_inner_failure_refuted :
     o_s o = Node FSampleS [leaf IRng; leaf (IPredG 0); leaf IOutS] /\
     o_log o = [Measure; Likelihood] /\ fst (o_lik o) = true.
 Proof. exact gpf_inner_failure_witness. Qed.
+
+(* the same with shipped components only (KFCorrection + GaussianLikelihood): measure() reports
+   unavailability to the wrapped correction and a value to the likelihood *)
+Theorem C12_gpf_transient_inner_failure_refuted :
+  exists o, run_gpf 0 false [bad Measure ++ good6] = [o] /\
+    tm_eqb (o_g o) (leaf (IPredG 0)) = false /\ tm_eqb (o_s o) (leaf (IPredS 0)) = false /\
+    o_log o = [Measure; Measure; Predicted; Innovation; NoiseCov] /\ fst (o_lik o) = true.
+Proof. exact gpf_transient_inner_failure_witness. Qed.
 
 (* ================= non-vacuity ================= *)
 (* all sixteen subsets of the four measurement-model calls, run on the extracted instance:
@@ -342,8 +337,27 @@ Proof. exact kf_all16. Qed.
 Example C12_ukf_all_sixteen_patterns additive :
   forallb (fun b => match run_ukf additive [b] with
                     | [o] => Bool.eqb (identity_at 0 o) (fails_any (pat_of b) sites3)
+                             && Bool.eqb (fst (o_lik o)) (negb (fails_any (pat_of b) sites3))
                     | _ => false end) all16 = true.
 Proof. exact (ukf_all16 additive). Qed.
+
+(* good call, then a call that cannot use the measurement, on the extracted instance:
+   identity and getLikelihood = (false, empty) although step 0 had a valid likelihood *)
+Example C12_kf_good_then_faulty :
+  exists o0 o1, run_kf [good6; bad Measure] = [o0; o1] /\
+    fst (o_lik o0) = true /\ o_g o1 = leaf (IPredG 1) /\ o_lik o1 = (false, leaf IEmpty).
+Proof. exact kf_good_then_faulty. Qed.
+
+Example C12_ukf_good_then_faulty additive :
+  exists o0 o1, run_ukf additive [good6; bad Predicted] = [o0; o1] /\
+    fst (o_lik o0) = true /\ o_g o1 = leaf (IPredG 1) /\ o_lik o1 = (false, leaf IEmpty) /\
+    o_log o1 = if additive then [Measure; Predicted] else [Measure; NoiseCov; Predicted].
+Proof. exact (ukf_good_then_faulty additive). Qed.
+
+Example C12_sukf_good_then_faulty ncalls lcalls :
+  exists o0 o1, run_sukf true ncalls lcalls [good6; bad Innovation] = [o0; o1] /\
+    fst (o_lik o0) = true /\ o_g o1 = leaf (IPredG 1) /\ o_lik o1 = (false, leaf IEmpty) /\ o_liklog o1 = [].
+Proof. exact (sukf_good_then_faulty ncalls lcalls). Qed.
 
 Example C12_gpf_gaussian_likelihood_all_sixteen_patterns inner :
   forallb (fun b => match run_gpf inner false [b] with
@@ -361,22 +375,23 @@ Print Assumptions C12_kf_identity.
 Print Assumptions C12_kf_identity_any_model.
 Print Assumptions C12_kf_call_log.
 Print Assumptions C12_no_fault_kf.
-Print Assumptions C12_kf_likelihood_after_failure_is_previous.
-Print Assumptions C12_kf_likelihood_fresh_reports_failure.
+Print Assumptions C12_kf_likelihood_after_failure_reports_failure.
+Print Assumptions C12_kf_likelihood_after_failure_reports_failure_any_model.
+Print Assumptions C12_kf_likelihood_after_success.
 Print Assumptions C12_ukf_identity.
 Print Assumptions C12_ukf_noisecov_flag_ignored.
 Print Assumptions C12_ukf_generic_call_log.
 Print Assumptions C12_ukf_additive_call_log.
 Print Assumptions C12_no_fault_ukf.
 Print Assumptions C12_ukf_members_after_failed_prediction.
-Print Assumptions C12_ukf_likelihood_fresh_reports_failure.
+Print Assumptions C12_ukf_likelihood_after_failure_reports_failure.
 Print Assumptions C12_sukf_identity.
 Print Assumptions C12_sukf_noisecov_flag_ignored.
 Print Assumptions C12_sukf_call_log.
 Print Assumptions C12_sukf_size_mismatch_call_log.
 Print Assumptions C12_no_fault_sukf.
 Print Assumptions C12_sukf_members_after_failed_innovation.
-Print Assumptions C12_sukf_likelihood_fresh_reports_failure.
+Print Assumptions C12_sukf_likelihood_after_failure_reports_failure.
 Print Assumptions C12_likelihood_reports_failure.
 Print Assumptions C12_likelihood_value_only_if_all_calls_succeed.
 Print Assumptions C12_likelihood_call_log.
@@ -392,10 +407,9 @@ Print Assumptions C12_gpf_call_log.
 Print Assumptions C12_no_fault_gpf.
 Print Assumptions C12_sis_skips_correction.
 Print Assumptions C12_no_fault_sis.
+Print Assumptions C12_public_correct_runs_the_step.
 Print Assumptions C12_no_fault_kf_is_C01.
 Print Assumptions C12_no_fault_kf_likelihood_is_C01.
 Print Assumptions C12_kf_numerical_instance_identity.
-Print Assumptions C12_kf_stale_likelihood_refuted.
-Print Assumptions C12_ukf_stale_likelihood_refuted.
-Print Assumptions C12_sukf_stale_likelihood_refuted.
 Print Assumptions C12_gpf_inner_failure_refuted.
+Print Assumptions C12_gpf_transient_inner_failure_refuted.
